@@ -11,11 +11,11 @@ import common as C, store as S
 LEVEL = {"C01": "model_checking", "C02": "model_checking", "C11": "model_checking", "C14": "translation_validation"}
 
 PROP_CHECKS = {
-    "C01": ["C01_AcceptReject", "C01_Close", "C01_ScanFails", "C01_RefsReadBack", "C01_LogsReadBack", "C01_Limits"],
+    "C01": ["C01_AcceptReject", "C01_Close", "C01_ScanFails", "C01_RefsReadBack", "C01_LogsReadBack", "C01_Limits", "C01_StableResults", "C14_ByteLevel"],
     "C02": ["C02_SeekFails", "C02_SeekRef", "C02_ReadRef", "C02_SeekLog", "C02_ReadLogAt"],
     "C11": ["C11_RefsForFails", "C11_TableRefsFor"],
     "C14": ["C14_ByteLevel", "C14_Contiguous", "C14_Types", "C14_Restarts", "C14_Keys", "C14_Index", "C14_Footer", "C14_ObjIndex",
-            "C14_UpdateIdx", "C14_DecodeRefs", "C14_DecodeLogs", "C14_HeaderLimits", "C01_Close", "C01_AcceptReject"],
+            "C14_UpdateIdx", "C14_DecodeRefs", "C14_DecodeLogs", "C14_HeaderLimits", "C01_Close", "C01_AcceptReject", "C01_RefsReadBack"],
 }
 
 VOL = {"quick": {"C01": 500, "C02": 400, "C11": 400, "C14": 400}, "thorough": {"C01": 12000, "C02": 8000, "C11": 8000, "C14": 8000}}
@@ -54,8 +54,10 @@ def gen_case(rng, cid, focus):
     if focus == "C02" and rng.random() < 0.5:
         nlogn = max(nlogn, 3)
     names = gen_names(rng, max(nrefs, nlogn, 1) + 3)
+    # values around the boundaries of the varint encoding (1 byte: 0..127, 2 bytes: ..16511, 3 bytes: ..2113663) matter
+    VB = [127, 128, 129, 16383, 16384, 16385, 16500, 16511, 16512, 16513, 2113663, 2113664, 2113665]
     mn = rng.choice([0, 0, 1, 5, 1000])
-    mx = mn + rng.choice([0, 1, 4, 100])
+    mx = mn + rng.choice([0, 1, 4, 100, 100, 17000, 2200000])
     exact = rng.random() < 0.5
     pool = [hexhash(rng, hs) for _ in range(rng.choice([1, 2, 3, 6, 40]))]
     if focus == "C11" and rng.random() < 0.5:
@@ -75,7 +77,10 @@ def gen_case(rng, cid, focus):
             v = ["p", hexhash(rng, hs, pool), hexhash(rng, hs, pool)]
         else:
             v = ["s", rng.choice(names), ""]
-        refs.append({"n": n, "i": rng.randint(mn, mx), "v": v})
+        idx = rng.randint(mn, mx)
+        if mx - mn > 1000 and rng.random() < 0.6:
+            idx = mn + rng.choice([b for b in VB if b <= mx - mn])
+        refs.append({"n": n, "i": idx, "v": v})
     # a few calls the writer must refuse (outside its domain): they must not disturb the rest
     if rng.random() < 0.15 and refs:
         refs[rng.randrange(len(refs))]["i"] = mx + 1 + rng.randrange(3)
@@ -93,7 +98,7 @@ def gen_case(rng, cid, focus):
                 msg = "two\nlines"     # refused without ExactLogMessage
             logs.append({"n": n, "i": i, "del": False, "old": rng.choice(["", hexhash(rng, hs, pool)]), "new": rng.choice(["", hexhash(rng, hs, pool)]),
                          "user": rng.choice(["", "A U Thor", "x"]), "email": rng.choice(["", "a@example.com"]),
-                         "time": rng.choice([0, 1, 1600000000, (1 << 31) - 1]), "tz": rng.choice([0, 60, -480, 330]), "msg": msg})
+                         "time": rng.choice([0, 1, 1600000000, (1 << 31) - 1] + VB), "tz": rng.choice([0, 60, -480, 330, -1, 32767, -32768]), "msg": msg})
     maxrec = max([len(r["n"]) + 2 * hs + len(r["v"][1] if r["v"][0] == "s" else "") + 16 for r in refs] +
                  [len(l["n"]) + 2 * hs + 9 + len(l.get("msg", "")) + len(l.get("user", "")) + len(l.get("email", "")) + 30 for l in logs] + [64])
     sizes = [b for b in (96, 128, 192, 256, 384, 512, 1024, 4096) if b >= maxrec + 60]
@@ -140,6 +145,13 @@ def kf_case():
     refs = [{"n": "refs/heads/%s%03d" % ("k" * 40, j), "i": 1, "v": ["v", a if j % 2 else b, ""]} for j in range(40)]
     return {"id": "kf-objidlen32", "blocksize": 256, "restart": 16, "unaligned": False, "skipindex": False, "hash": "s256", "exact": False,
             "min": 1, "max": 1, "refs": refs, "logs": [], "seekrefs": [""], "seeklogs": [], "oids": [a, b], "universe": [], "layout": True}
+
+
+def big_case():
+    """more records in ONE block than a restart table can address (65535): 66000 short refs, restart interval 1, 4 MiB block"""
+    refs = [{"n": "r%05d" % j, "i": 1, "v": ["d", "", ""]} for j in range(66000)]
+    return {"id": "big-restart-cap", "blocksize": 4 << 20, "restart": 1, "unaligned": False, "skipindex": True, "hash": "sha1", "exact": False,
+            "min": 1, "max": 1, "refs": refs, "logs": [], "seekrefs": [], "seeklogs": [], "oids": [], "universe": [], "layout": False, "big": True}
 
 
 def signature(check, trace, line):
@@ -191,6 +203,8 @@ def run(pid, tier, merge=False):
         cases += tablemc.shape_cases(pid, tier, sc, seed)
         if pid in ("C11", "C14"):
             cases.append(kf_case())
+        if pid in ("C01", "C14"):
+            cases.append(big_case())
         outs = run_cases(cases, drv, sc)
         byid = {o["id"]: o for o in outs}
         cbyid = {c["id"]: c for c in cases}
